@@ -57,7 +57,13 @@ def main():
         out["demo_on_changed"] = "FAIL" if demo.returncode != 0 else "PASS"
         for c in checks:
             t0 = time.time()
-            r = sh(f"cd {V} && ./check {c} --tier {a.tier}", timeout=7200, env=env)
+            ev = V / "evidence" / f"{c}.json"       # evidence must describe runs on the unchanged tree: keep it
+            saved = ev.read_text() if ev.exists() else None
+            try:
+                r = sh(f"cd {V} && ./check {c} --tier {a.tier}", timeout=7200, env=env)
+            finally:
+                if saved is not None:
+                    ev.write_text(saved)
             viol = [l for l in r.stdout.splitlines() if l.startswith("VIOLATION")]
             inputs = [l.strip() for l in r.stdout.splitlines() if l.strip().startswith("failing input")][:4]
             out[c] = dict(rc=r.returncode, violation=viol[:1], failing_inputs=inputs, wall_s=round(time.time() - t0, 1),
